@@ -11,7 +11,7 @@
    for it (observed + min(NS TTL, DS TTL), limited by every shallower cut on the path);
    [l_spec l] is the lease the property grants: [l_code l] further limited by
    observed + 12 h (for the code as it is the two coincide: [code_lease_is_granted_lease]). *)
-From Sdns Require Import Common.Base Gen.C08 C08.Model C08.Proofs_base C08.Proofs_inv C08.Proofs_thm C08.Proofs_chase.
+From Sdns Require Import Common.Base Common.GoList Gen.C08 C08.Model C08.Proofs_base C08.Proofs_inv C08.Proofs_thm C08.Proofs_chase.
 Open Scope Z_scope.
 
 (* ---- translator ties *)
@@ -93,6 +93,29 @@ Theorem minRRSetTTL_is_model : forall rrs,
   Z.of_N (go_minRRSetTTL rrs) = rrset_min_ttl (map (fun rr => Z.of_N (rr_ttl rr)) rrs).
 Proof. exact gen_minRRSetTTL. Qed.
 Print Assumptions minRRSetTTL_is_model.
+
+(* Resolver.extractDelegationInfo (where the "NS TTL" of the lease comes from), the loop over the referral's authority
+   section translated from the source on every run (loopfunc; dns.RR as a sum type, the host set as an association
+   list): from any state in which the first NS record has anchored the RRset, it runs the model's [deleg_step] over the
+   section - under [di_rep]: anchor owner and class, TTL, hasSOA, incoherent (the host set is not related).  The
+   anchoring branch itself (`info.nsRecord == nil`: three assignments) is hand-copied ([deleg_anchor]). *)
+Theorem extractDelegationInfo_loop_is_model : forall resp i d, di_rep i d ->
+  exists i', go_Resolver_extractDelegationInfo_loop1_run resp i = (GoNext, (resp, i')) /\
+             di_rep i' (fold_left deleg_step (map rr_kind (T_Msg_Ns resp)) d).
+Proof. exact gen_extract_delegation_loop. Qed.
+Print Assumptions extractDelegationInfo_loop_is_model.
+
+(* ... and what that fold computes: the lease TTL is the MINIMUM over the anchor and every NS record of the anchored
+   owner (ASCII case folding) and class; a record of another owner or class never enters it and marks the referral
+   incoherent (validReferral then rejects it); an SOA anywhere is noted ([ex_deleg_fold]) *)
+Theorem referral_ttl_is_minimum_of_the_coherent_rrset : forall ks d,
+  let d' := fold_left deleg_step ks d in
+  di_owner d' = di_owner d /\ di_class d' = di_class d /\
+  di_ttl d' = fold_left N.min (flat_map (fun k => match k with KNs _ _ t => if ns_coherent d k then [t] else [] | _ => [] end) ks) (di_ttl d) /\
+  di_incoh d' = di_incoh d || existsb (fun k => match k with KNs _ _ _ => negb (ns_coherent d k) | _ => false end) ks /\
+  di_soa d' = di_soa d || existsb (fun k => match k with KSoa => true | _ => false end) ks.
+Proof. exact deleg_fold_shape. Qed.
+Print Assumptions referral_ttl_is_minimum_of_the_coherent_rrset.
 
 (* cache.CacheEntry.remaining (the one place that decides how long a stored answer is served), translated
    from the source on every run, is the model's: TTL minus age, cut short by the inherited cut *)
